@@ -349,13 +349,32 @@ impl<const P: u16> Float for Fp<P> {
 
 impl<const P: u16> FloatConst for Fp<P> {
     unimpl0! { E FRAC_1_PI FRAC_2_PI FRAC_2_SQRT_PI FRAC_PI_2 FRAC_PI_3 FRAC_PI_4 FRAC_PI_6 FRAC_PI_8 LN_10 LN_2 LOG10_E LOG2_E PI }
-    /// a root of 2 (exists iff P = +-1 mod 8, e.g. P = 17, 31); cut otherwise (see sqrt)
+    /// THE canonical root of 2 (the one with representative <= P/2; exists iff P = +-1 mod 8, e.g. 17, 31;
+    /// cut otherwise).  A constant must have the same value at every use, unlike the arbitrary root of `sqrt`.
     fn SQRT_2() -> Self {
-        Float::sqrt(Fp::<P>(2 % P))
+        canonical_sqrt2::<P>()
     }
     fn FRAC_1_SQRT_2() -> Self {
-        Float::recip(Float::sqrt(Fp::<P>(2 % P)))
+        Float::recip(canonical_sqrt2::<P>())
     }
+}
+
+#[cfg(kani)]
+fn canonical_sqrt2<const P: u16>() -> Fp<P> {
+    let r: u16 = kani::any();
+    kani::assume(r <= P / 2 && (r as u32 * r as u32) % P as u32 == 2 % P as u32);
+    Fp(r)
+}
+#[cfg(not(kani))]
+fn canonical_sqrt2<const P: u16>() -> Fp<P> {
+    let mut r = 0u16;
+    while r <= P / 2 {
+        if (r as u32 * r as u32) % P as u32 == 2 % P as u32 {
+            return Fp(r);
+        }
+        r += 1;
+    }
+    panic!("2 is not a square in this field")
 }
 
 #[cfg(kani)]
